@@ -29,8 +29,9 @@ theorem cstep'_of_cstep {X : String → Prop} {c c' : Conn} (h : Iws.CStep X c c
 
 /-- `recv_settings`: the peer's ACK applies exactly the values that were in flight -/
 theorem recvSettings_cs' {X : String → Prop} {c : Conn} (hc : ConnOK c) (hi : IwsInv c) (ack : Bool) (vals : List (Nat × Nat))
-    (hrem : ack = false → c.settings.remote = none) : CStep' X c (c.recvSettings ack vals).1 :=
-  cstep'_of_cs (Iws.recvSettings_cs hc.ga hi ack vals hrem) hc hi
+    (hrem : ack = false → c.settings.remote = none) (hv : ack = false → ConnFlowP.SettingsOk vals) :
+    CStep' X c (c.recvSettings ack vals).1 :=
+  cstep'_of_cs (Iws.recvSettings_cs hc.ga hi ack vals hrem hv) hc hi
 
 theorem recvFrame_cs' {X : String → Prop} {c : Conn} (hc : ConnOK c) (hi : IwsInv c) (hcn : c.goAway.closeNow = false)
     (href : c.streams.recv.refused = none) (hpp : c.pingPong.pendingPong = none) (f : Option Frame.Frame)
@@ -38,7 +39,7 @@ theorem recvFrame_cs' {X : String → Prop} {c : Conn} (hc : ConnOK c) (hi : Iws
   cstep'_of_cs (Iws.recvFrame_cs (.of hc hi) hcn href hpp f hf) hc hi
 
 theorem pollReady_cs' {X : String → Prop} {c : Conn} (hc : ConnOK c) (hi : IwsInv c) : CStep' X c c.pollReady.1 :=
-  cstep'_of_cs (Iws.pollReady_cs hc.ga).1 hc hi
+  cstep'_of_cs (Iws.pollReady_cs hc.ga hc.rd.rem).1 hc hi
 
 theorem handlePoll2Result_cs' {X : String → Prop} {c : Conn} (hc : ConnOK c) (hi : IwsInv c) (res : Except PErr Unit) :
     CStep' X c (c.handlePoll2Result res).1 := cstep'_of_cs (Iws.handlePoll2Result_cs hc.ga res) hc hi
@@ -55,11 +56,12 @@ theorem clientPoll_cs' (fuel : Nat) {c : Conn} (hc : ConnOK c) (hi : IwsInv c) :
 /-- **every call of the application on a connection except `set_initial_window_size`** (which puts an
     INITIAL_WINDOW_SIZE in flight) keeps `ConnOK` and `IwsInv`, by a `ConnP'` history -/
 theorem cop_step' {c : Conn} (hc : ConnOK c) (hi : IwsInv c) (op : COp) (hop : ∀ o, op ≠ .handle o)
-    (hs : ∀ n, op ≠ .setInitialWindowSize n) : CStep' FuelMsg c (op.apply c) := by
+    (hs : ∀ n, op ≠ .setInitialWindowSize n) (hv : ∀ size, op = .setTargetWindowSize size → size ≤ 2147483647) :
+    CStep' FuelMsg c (op.apply c) := by
   cases op with
   | protoPoll fuel => exact protoPoll_cs' fuel hc hi
   | clientPoll fuel => exact clientPoll_cs' fuel hc hi
-  | setTargetWindowSize size => exact cstep'_of_cs (Iws.setTargetWindowSize_cs hc.ga size) hc hi
+  | setTargetWindowSize size => exact cstep'_of_cs (Iws.setTargetWindowSize_cs hc.ga size (hv size rfl)) hc hi
   | setInitialWindowSize size => exact absurd rfl (hs size)
   | goAwayGracefully => exact cstep'_of_cstep (Iws.goAwayGracefully_step (.of hc hi))
   | goAwayFromUser e => exact cstep'_of_cs (Iws.goAwayFromUser_cs hc.ga e) hc hi
@@ -107,18 +109,19 @@ theorem initServer_ok' (g : Conn.Cfg) (ecp : Bool) (pf : Bytes) (hg : CfgOK g) (
   ⟨initServer_ok g ecp pf hg, initServer_iws g ecp pf hi⟩
 
 /-- the constructors never call `apply_local_settings` -/
-theorem init_hist' (g : Conn.Cfg) : HistW ConnP' (clientStreams0 g) {} (Conn.init g).streams (Conn.init g).codec.w := by
+theorem init_hist' (g : Conn.Cfg) (hg : CwsOK g) :
+    HistW ConnP' (clientStreams0 g) {} (Conn.init g).streams (Conn.init g).codec.w := by
   unfold Conn.init
   dsimp only
   have h1 : HistW ConnP' (clientStreams0 g) {} (clientStreams0 g)
       (({} : Writer).bufferSimple (6 * (Frame.settingsOrder g.settings).length) (Conn.renderSettings false g.settings)) :=
     .w1 (.bufferSimple _ _ _) rfl
   have h2 := h1.trans (.op1 (s' := (clientStreams0 g).cloneHandle) .cloneHandle trivial rfl rfl rfl)
-  cases g.cws with
+  cases hc : g.cws with
   | none => exact h2
-  | some sz => exact h2.trans (.op1 (.setTargetConnectionWindow sz) trivial rfl rfl rfl)
+  | some sz => exact h2.trans (.op1 (.setTargetConnectionWindow sz) (hg sz hc) rfl rfl rfl)
 
-theorem initServer_hist' (g : Conn.Cfg) (ecp : Bool) (pf : Bytes) :
+theorem initServer_hist' (g : Conn.Cfg) (ecp : Bool) (pf : Bytes) (hg : CwsOK g) :
     HistW ConnP' (serverStreams0 g ecp) {} (Conn.initServer g ecp pf).streams (Conn.initServer g ecp pf).codec.w := by
   unfold Conn.initServer
   dsimp only
@@ -127,8 +130,8 @@ theorem initServer_hist' (g : Conn.Cfg) (ecp : Bool) (pf : Bytes) :
       (({} : Writer).bufferSimple (6 * (Frame.settingsOrder settings).length) (Conn.renderSettings false settings)) :=
     .w1 (.bufferSimple _ _ _) rfl
   have h2 := h1.trans (.w1 (.flush _ { rd := pf } WAKER_CONN) rfl)
-  cases g.cws with
+  cases hc : g.cws with
   | none => exact h2
-  | some sz => exact h2.trans (.op1 (.setTargetConnectionWindow sz) trivial rfl rfl rfl)
+  | some sz => exact h2.trans (.op1 (.setTargetConnectionWindow sz) (hg sz hc) rfl rfl rfl)
 
 end H2V.Lemmas.ConnNoPanicP
